@@ -185,7 +185,11 @@ class CanvasCache:
         if not sizes:
             with contextlib.suppress(KeyError):
                 del cls._widgets[widget]
-                del cls._deps[widget]
+            # A canvas that depends on this widget without holding one of its canvases (explicit
+            # set_depends) would lose its only link to the widget: drop it, as store() would not have
+            # cached it in the first place while the widget had no cached canvas.
+            for dependant in cls._deps.pop(widget, ()):
+                cls.invalidate(dependant)
 
     @classmethod
     def clear(cls) -> None:
